@@ -310,35 +310,51 @@ def encLongTerm (bits : Nat) : List (Nat × Bool) → List Bool
   | [] => []
   | (v, u') :: rest => u bits v ++ flag u' ++ encLongTerm bits rest
 
-/-- vui_parameters(), E.2.1 -/
-def encVui (v : VuiSyn) : List Bool :=
+def encAspect (v : VuiSyn) : List Bool :=
   flag v.aspect_ratio_info_present_flag ++
   (if v.aspect_ratio_info_present_flag then
-    u 8 v.aspect_ratio_idc ++ (if v.aspect_ratio_idc = 255 then u 16 v.sar_width ++ u 16 v.sar_height else []) else []) ++
-  flag v.overscan_info_present_flag ++ (if v.overscan_info_present_flag then flag v.overscan_appropriate_flag else []) ++
+    u 8 v.aspect_ratio_idc ++ (if v.aspect_ratio_idc = 255 then u 16 v.sar_width ++ u 16 v.sar_height else []) else [])
+
+def encOverscan (v : VuiSyn) : List Bool :=
+  flag v.overscan_info_present_flag ++ (if v.overscan_info_present_flag then flag v.overscan_appropriate_flag else [])
+
+def encSignal (v : VuiSyn) : List Bool :=
   flag v.video_signal_type_present_flag ++
   (if v.video_signal_type_present_flag then
     u 3 v.video_format ++ flag v.video_full_range_flag ++ flag v.colour_description_present_flag ++
     (if v.colour_description_present_flag then
-      u 8 v.colour_primaries ++ u 8 v.transfer_characteristics ++ u 8 v.matrix_coeffs else []) else []) ++
+      u 8 v.colour_primaries ++ u 8 v.transfer_characteristics ++ u 8 v.matrix_coeffs else []) else [])
+
+def encChromaLoc (v : VuiSyn) : List Bool :=
   flag v.chroma_loc_info_present_flag ++
   (if v.chroma_loc_info_present_flag then
-    ue v.chroma_sample_loc_type_top_field ++ ue v.chroma_sample_loc_type_bottom_field else []) ++
-  flag v.neutral_chroma_indication_flag ++ flag v.field_seq_flag ++ flag v.frame_field_info_present_flag ++
+    ue v.chroma_sample_loc_type_top_field ++ ue v.chroma_sample_loc_type_bottom_field else [])
+
+def encWindow (v : VuiSyn) : List Bool :=
   flag v.default_display_window_flag ++
   (if v.default_display_window_flag then
     ue v.def_disp_win_left_offset ++ ue v.def_disp_win_right_offset ++ ue v.def_disp_win_top_offset ++
-    ue v.def_disp_win_bottom_offset else []) ++
+    ue v.def_disp_win_bottom_offset else [])
+
+def encTiming (v : VuiSyn) : List Bool :=
   flag v.vui_timing_info_present_flag ++
   (if v.vui_timing_info_present_flag then
     u 32 v.vui_num_units_in_tick ++ u 32 v.vui_time_scale ++ flag v.vui_poc_proportional_to_timing_flag ++
     (if v.vui_poc_proportional_to_timing_flag then ue v.vui_num_ticks_poc_diff_one_minus1 else []) ++
-    flag v.vui_hrd_parameters_present_flag ++ (if v.vui_hrd_parameters_present_flag then encHrd v.hrd else []) else []) ++
+    flag v.vui_hrd_parameters_present_flag ++ (if v.vui_hrd_parameters_present_flag then encHrd v.hrd else []) else [])
+
+def encRestriction (v : VuiSyn) : List Bool :=
   flag v.bitstream_restriction_flag ++
   (if v.bitstream_restriction_flag then
     flag v.tiles_fixed_structure_flag ++ flag v.motion_vectors_over_pic_boundaries_flag ++
     flag v.restricted_ref_pic_lists_flag ++ ue v.min_spatial_segmentation_idc ++ ue v.max_bytes_per_pic_denom ++
     ue v.max_bits_per_min_cu_denom ++ ue v.log2_max_mv_length_horizontal ++ ue v.log2_max_mv_length_vertical else [])
+
+/-- vui_parameters(), E.2.1 -/
+def encVui (v : VuiSyn) : List Bool :=
+  encAspect v ++ encOverscan v ++ encSignal v ++ encChromaLoc v ++
+  flag v.neutral_chroma_indication_flag ++ flag v.field_seq_flag ++ flag v.frame_field_info_present_flag ++
+  encWindow v ++ encTiming v ++ encRestriction v
 
 /-- sps_video_parameter_set_id … conformance window -/
 def encSpsHead (s : SpsSyn) : List Bool :=
@@ -350,32 +366,48 @@ def encSpsHead (s : SpsSyn) : List Bool :=
     ue s.conf_win_left_offset ++ ue s.conf_win_right_offset ++ ue s.conf_win_top_offset ++ ue s.conf_win_bottom_offset
    else [])
 
-/-- bit depths … sps_extension flags -/
-def encSpsBody (s : SpsSyn) : List Bool :=
-  ue s.bit_depth_luma_minus8 ++ ue s.bit_depth_chroma_minus8 ++ ue s.log2_max_pic_order_cnt_lsb_minus4 ++
-  flag s.sps_sub_layer_ordering_info_present_flag ++ encOrdering s.ordering ++
-  ue s.log2_min_luma_coding_block_size_minus3 ++ ue s.log2_diff_max_min_luma_coding_block_size ++
-  ue s.log2_min_luma_transform_block_size_minus2 ++ ue s.log2_diff_max_min_luma_transform_block_size ++
-  ue s.max_transform_hierarchy_depth_inter ++ ue s.max_transform_hierarchy_depth_intra ++
+def encScalingPart (s : SpsSyn) : List Bool :=
   flag s.scaling_list_enabled_flag ++
   (if s.scaling_list_enabled_flag then
     flag s.sps_scaling_list_data_present_flag ++
-    (if s.sps_scaling_list_data_present_flag then encScaling 0 s.scaling_list else []) else []) ++
-  flag s.amp_enabled_flag ++ flag s.sample_adaptive_offset_enabled_flag ++ flag s.pcm_enabled_flag ++
+    (if s.sps_scaling_list_data_present_flag then encScaling 0 s.scaling_list else []) else [])
+
+def encPcm (s : SpsSyn) : List Bool :=
+  flag s.pcm_enabled_flag ++
   (if s.pcm_enabled_flag then
     u 4 s.pcm_sample_bit_depth_luma_minus1 ++ u 4 s.pcm_sample_bit_depth_chroma_minus1 ++
     ue s.log2_min_pcm_luma_coding_block_size_minus3 ++ ue s.log2_diff_max_min_pcm_luma_coding_block_size ++
-    flag s.pcm_loop_filter_disabled_flag else []) ++
-  ue s.st_ref_pic_sets.length ++ encStRpsList 0 s.st_ref_pic_sets ++
+    flag s.pcm_loop_filter_disabled_flag else [])
+
+def encLongTermPart (s : SpsSyn) : List Bool :=
   flag s.long_term_ref_pics_present_flag ++
   (if s.long_term_ref_pics_present_flag then
-    ue s.long_term.length ++ encLongTerm (s.log2_max_pic_order_cnt_lsb_minus4 + 4) s.long_term else []) ++
-  flag s.sps_temporal_mvp_enabled_flag ++ flag s.strong_intra_smoothing_enabled_flag ++
-  flag s.vui_parameters_present_flag ++ (if s.vui_parameters_present_flag then encVui s.vui else []) ++
+    ue s.long_term.length ++ encLongTerm (s.log2_max_pic_order_cnt_lsb_minus4 + 4) s.long_term else [])
+
+def encVuiPart (s : SpsSyn) : List Bool :=
+  flag s.vui_parameters_present_flag ++ (if s.vui_parameters_present_flag then encVui s.vui else [])
+
+def encExt (s : SpsSyn) : List Bool :=
   flag s.sps_extension_present_flag ++
   (if s.sps_extension_present_flag then
     flag s.sps_range_extension_flag ++ flag s.sps_multilayer_extension_flag ++ flag s.sps_3d_extension_flag ++
     flag s.sps_scc_extension_flag ++ u 4 s.sps_extension_4bits else [])
+
+def encCoding (s : SpsSyn) : List Bool :=
+  ue s.log2_min_luma_coding_block_size_minus3 ++ ue s.log2_diff_max_min_luma_coding_block_size ++
+  ue s.log2_min_luma_transform_block_size_minus2 ++ ue s.log2_diff_max_min_luma_transform_block_size ++
+  ue s.max_transform_hierarchy_depth_inter ++ ue s.max_transform_hierarchy_depth_intra
+
+/-- bit depths … sps_extension flags -/
+def encSpsBody (s : SpsSyn) : List Bool :=
+  ue s.bit_depth_luma_minus8 ++ ue s.bit_depth_chroma_minus8 ++ ue s.log2_max_pic_order_cnt_lsb_minus4 ++
+  flag s.sps_sub_layer_ordering_info_present_flag ++ encOrdering s.ordering ++
+  encCoding s ++ encScalingPart s ++
+  flag s.amp_enabled_flag ++ flag s.sample_adaptive_offset_enabled_flag ++ encPcm s ++
+  ue s.st_ref_pic_sets.length ++ encStRpsList 0 s.st_ref_pic_sets ++
+  encLongTermPart s ++
+  flag s.sps_temporal_mvp_enabled_flag ++ flag s.strong_intra_smoothing_enabled_flag ++
+  encVuiPart s ++ encExt s
 
 def encSpsData (s : SpsSyn) : List Bool := encSpsHead s ++ encSpsBody s
 
